@@ -4,6 +4,7 @@ package main
 
 import (
 	"bufio"
+	"context"
 	"fmt"
 	"io"
 	"math/big"
@@ -31,7 +32,8 @@ type Solver struct {
 	timeoutMs int
 	defined   map[int]bool // term ids defined at the current path scope
 	declUF    map[string]bool
-	hashApps  []*Term // digest applications defined on the current path (for the collision-freedom axioms)
+	Deadline  time.Time // harness time budget: no fallback solver runs after it
+	hashApps  []*Term   // digest applications defined on the current path (for the collision-freedom axioms)
 	Queries   int
 	Time      time.Duration
 	Errors    int
@@ -435,7 +437,7 @@ func parseValue(toks []string) *big.Int {
 
 // fallback re-runs the current query (path script + extra) one-shot on the other solvers.
 func (s *Solver) fallback(extra *Term, wantModel bool, vars []*Term) (Result, Model, bool) {
-	if len(s.Fallbacks) == 0 {
+	if len(s.Fallbacks) == 0 || (!s.Deadline.IsZero() && time.Now().After(s.Deadline)) {
 		return Unknown, nil, false
 	}
 	var sb strings.Builder
@@ -475,7 +477,9 @@ func (s *Solver) fallback(extra *Term, wantModel bool, vars []*Term) (Result, Mo
 		case "cvc5":
 			argv = []string{"cvc5", "--lang=smt2", fmt.Sprintf("--tlimit=%d", s.timeoutMs), "--produce-models", f.Name()}
 		}
-		out, _ := exec.Command(argv[0], argv[1:]...).Output()
+		ctx, cancel := context.WithTimeout(context.Background(), time.Duration(s.timeoutMs)*time.Millisecond+10*time.Second)
+		out, _ := exec.CommandContext(ctx, argv[0], argv[1:]...).Output()
+		cancel()
 		os.Remove(f.Name())
 		rep := strings.TrimSpace(string(out))
 		if strings.Contains(rep, "(error") {
